@@ -117,8 +117,8 @@ _PT = dict(extra=["-Z", "stubbing", "-Z", "unstable-options", "--cbmc-args", "--
 
 def PT(prop, own, **kw):
     d = K(own, **_PT)
-    d["filters_quick"] = ["pt_", "ptr_", own + "_"] + (["c10_range_p1_unaligned_window"] if prop == "C01" else [])
-    d["filters_thorough"] = ["pt_", "ptt_", "ptr_", "ptrt_", own + "_", own + "t_"] + (["c10_range_p1_unaligned_window"] if prop == "C01" else [])
+    d["filters_quick"] = ["pt_", "ptr_", "ptq_", own + "_"] + (["c10_range_p1_unaligned_window"] if prop == "C01" else [])
+    d["filters_thorough"] = ["pt_", "ptt_", "ptr_", "ptrt_", "ptq_", "ptqt_", own + "_", own + "t_"] + (["c10_range_p1_unaligned_window"] if prop == "C01" else [])
     d.update(kw)
     return d
 
